@@ -70,10 +70,14 @@ def gen_case(rng, tier, k):
             lines = [l if l.split(",")[0].strip() != v else f"{v}, ({l.split(',', 1)[1].strip()}) {rng.choice(['&', '|'])} {rng.choice(['', '!'])}in{j}" for l in lines]
             lines.append(f"in{j}, in{j}")
         bnet = "\n".join(lines)
-        if rng.random() < 0.4:
-            bnet = common.g_modulated(rng)
-        return {"kind": "inputs", "bnet": bnet, "valuation": [rng.randint(0, 1) for _ in range(3)],
-                "strategy": rng.choice(["bfs", "build", "block", "scc"])}
+        st = rng.choice(["bfs", "build", "block", "scc"])
+        if rng.random() < 0.5:
+            # the input switches the logic of a module whose variables and wiring stay the same: what the block /
+            # component strategies learn under one valuation must not be reused under the other
+            bnet = common.g_modulated(rng, focus=rng.random() < 0.6)
+            st = rng.choice(["build", "build", "block", "block", "scc", "bfs"])
+        return {"kind": "inputs", "bnet": bnet, "valuation": [rng.randint(0, 1) for _ in range(3)], "strategy": st,
+                "all_valuations": bnet.startswith("i0, i0") and rng.random() < 0.7}
     return {"kind": "model", "index": rng.randrange(1000)}
 
 
@@ -171,6 +175,24 @@ def absdiag(sd, nodes=None):
 
 
 def run_inputs(case):
+    if case.get("all_valuations"):
+        # every valuation of (at most two) inputs
+        out = None
+        for bits in itertools.product([0, 1], repeat=2):
+            r = run_inputs_one(dict(case, valuation=list(bits) + [0], all_valuations=False))
+            if out is None:
+                out = r
+            else:
+                out["fails"] += r["fails"]
+                out["nontrivial"] = out["nontrivial"] or r["nontrivial"]
+            if r["tags"] == ["inputs:none"]:
+                break
+        out["sig"] = common.case_hash(case)
+        return out
+    return run_inputs_one(case)
+
+
+def run_inputs_one(case):
     import networkx as nx
 
     sd = make_sd(case)
